@@ -73,6 +73,9 @@ GUARDS = {
         ("unknown change", has("key:_atom_stereo_change:"))],
     "delete_bond_stereo_change": [
         ("unknown change", has("key:_bond_stereo_change:"))],
+    # batch mutator: a matrix entry naming an unknown atom / the diagonal
+    # must be rejected before the first bond is added
+    "bonds_from_bond_order_matrix": [],
 }
 
 
